@@ -131,3 +131,50 @@ Proof.
     rewrite Oa, Ob in Hab. discriminate.
   - apply Forall_forall. exact Hin.
 Qed.
+
+(* ---------- role re-assignment: only the last assignment counts ---------- *)
+
+Lemma set_role_frame : forall st x,
+  m_sig (fst (set_role st x)) = m_sig (fst st) /\ m_grp (fst (set_role st x)) = m_grp (fst st) /\
+  m_parent (fst (set_role st x)) = m_parent (fst st).
+Proof. intros st x. unfold set_role. cbn. repeat split. Qed.
+
+Lemma apply_op_frame : forall st op,
+  m_sig (fst (apply_op st op)) = m_sig (fst st) /\ m_grp (fst (apply_op st op)) = m_grp (fst st) /\
+  m_parent (fst (apply_op st op)) = m_parent (fst st).
+Proof. intros st [x|x]; cbn [apply_op fst]; apply set_role_frame. Qed.
+
+Lemma fold_ops_frame : forall ops st,
+  m_sig (fst (fold_left apply_op ops st)) = m_sig (fst st) /\
+  m_grp (fst (fold_left apply_op ops st)) = m_grp (fst st) /\
+  m_parent (fst (fold_left apply_op ops st)) = m_parent (fst st).
+Proof.
+  induction ops as [|op r IH]; intro st; [cbn; repeat split|].
+  cbn [fold_left]. destruct (IH (apply_op st op)) as [H1 [H2 H3]].
+  destruct (apply_op_frame st op) as [G1 [G2 G3]].
+  repeat split; congruence.
+Qed.
+
+(* After ANY history of role assignments on a signal (bare multiplex_setter calls and constructor-style assignments in
+   any mix), one more assignment of x leaves exactly the role a fresh assignment of x gives: is_multiplexer and mux_val
+   are those of x alone, nothing of the earlier roles survives; position, ranges and parent are untouched. *)
+Theorem setter_last_wins : forall st ops op,
+  let s := fst (apply_op (fold_left apply_op ops st) op) in
+  m_is_mux s = fst (multiplex_setter (op_arg op)) /\ m_mux_val s = snd (multiplex_setter (op_arg op)) /\
+  m_sig s = m_sig (fst st) /\ m_grp s = m_grp (fst st) /\ m_parent s = m_parent (fst st).
+Proof.
+  intros st ops op. cbn zeta.
+  destruct (fold_ops_frame ops st) as [H1 [H2 H3]].
+  destruct (apply_op_frame (fold_left apply_op ops st) op) as [G1 [G2 G3]].
+  split; [destruct op; reflexivity|]. split; [destruct op; reflexivity|].
+  repeat split; congruence.
+Qed.
+
+Theorem setter_last_wins_fresh : forall sg x0 ops op,
+  fst (apply_op (fold_left apply_op ops (new_msignal sg x0, x0)) op) = new_msignal sg (op_arg op).
+Proof.
+  intros sg x0 ops op.
+  destruct (setter_last_wins (new_msignal sg x0, x0) ops op) as [H1 [H2 [H3 [H4 H5]]]].
+  destruct (fst (apply_op (fold_left apply_op ops (new_msignal sg x0, x0)) op)) as [a b c d e].
+  cbn in *. unfold new_msignal. congruence.
+Qed.
